@@ -91,7 +91,7 @@ static void cb_enter(int s, int kind) {
             int pi = -1;
             for (int i = 0; i < m->nmb; i++) if (m->mb[i].kind == 0 && MSG[m->mb[i].msg].topic == T_PILL) { pi = i; break; }
             if (pi >= 0) {
-                int held = m->ever_batched; for (int q = 0; q < NPAT; q++) if (m->sub[q].present && m->sub[q].prio == PR_LOW) held = 1;
+                int held = m->ever_batched || holds_low(s);
                 if (ON(R_PILL) && !held) for (int i = 0; i < pi; i++) if (!m->mb[i].optional && m->mb[i].kind == 0 && !owed_excused(s, i))      /* (a copy lost to a full mailbox is excused) */
                     vfail("PS.pill", "PS.pill|early", "poison pill stopped %s before message #%d, sent to it earlier, was handed over", m->name, m->mb[i].msg);
                 MSG[m->mb[pi].msg].owed--; mb_remove(s, pi);
@@ -269,9 +269,10 @@ static void handle_events(int s, const m_queue_t *evts, int handler_id) {
                 for (int j = 0; j < MAXSRC; j++) if (m->src[j].present && m->src[j].kind == K_FD && e->userdata == SRCUPP(s, j)) { si = j; k = m->src[j].key; }
                 if (si < 0) vfail("EV.owner", "EV.owner|fd", "%s received a descriptor event whose user pointer matches none of its descriptor sources", m->name);
                 if (!(m->src[si].flags & 4) && e->fd_evt->fd != UFD[k].rd) vfail("EV.owner", "EV.owner|fd-value", "%s: descriptor event reports fd %d, registered %d", m->name, e->fd_evt->fd, UFD[k].rd);
-                if (UFD[k].bytes <= 0) vfail("EV.ghost", "EV.ghost|fd", "%s received a descriptor event although nothing is readable", m->name);
-                char c; if (__real_read(e->fd_evt->fd, &c, 1) != 1) vfail("EV.ghost", "EV.ghost|fd-read", "%s: descriptor reported readable but read failed", m->name);
-                UFD[k].bytes--; trig = 1; cur_evrec[i] = new_evrec(e, 1, -1, k); obs(6000 + k);
+                if (UFD[k].bytes <= 0 && !UFD[k].hung) vfail("EV.ghost", "EV.ghost|fd", "%s received a descriptor event although nothing is readable", m->name);
+                char c; ssize_t rr = __real_read(e->fd_evt->fd, &c, 1);
+                if (UFD[k].bytes > 0 ? rr != 1 : rr != 0) vfail("EV.ghost", "EV.ghost|fd-read", "%s: descriptor reported readable but read returned %zd", m->name, rr);
+                if (UFD[k].bytes > 0) UFD[k].bytes--; if (UFD[k].hung) UFD[k].hung_seen = 1; trig = 1; cur_evrec[i] = new_evrec(e, 1, -1, k); obs(6000 + k);
                 if (m->src[si].flags & 2) { m->src[si].present = 0; if ((m->src[si].flags & 5) == 1) UFD[k].open_rd = 0; }      /* one-shot */
                 break; }
             case M_SRC_TYPE_TMR: {
